@@ -227,9 +227,29 @@ static char *quote_string(char *str) {
   return buf;
 }
 
+// Tokenize text that the preprocessor made up - the result of #, ## or
+// a builtin macro. The tokens belong to the pseudo file "<built-in>"
+// (error_tok() then reports the macro invocation they come from) and
+// start out with the line of `tmpl`, the token they stand in for.
+static Token *tokenize_at(char *buf, Token *tmpl) {
+  File *file = new_file("<built-in>", tmpl->file->file_no, buf);
+  file->display_name = tmpl->file->display_name;
+  file->line_delta = tmpl->file->line_delta;
+
+  // Diagnostics refer to `tmpl`. (A copy, because a caller may
+  // overwrite `tmpl` itself with the result.)
+  Token *origin = copy_token(tmpl);
+  Token *tok = tokenize(file);
+  for (Token *t = tok; t; t = t->next) {
+    t->line_no = tmpl->line_no;
+    t->origin = origin;
+  }
+  return tok;
+}
+
 static Token *new_str_token(char *str, Token *tmpl) {
   char *buf = quote_string(str);
-  return tokenize(new_file(tmpl->file->name, tmpl->file->file_no, buf));
+  return tokenize_at(buf, tmpl);
 }
 
 // Copy all tokens until the next newline, terminate them with
@@ -249,12 +269,7 @@ static Token *copy_line(Token **rest, Token *tok) {
 
 static Token *new_num_token(int val, Token *tmpl) {
   char *buf = format("%d\n", val);
-  Token *tok = tokenize(new_file("<built-in>", tmpl->file->file_no, buf));
-
-  // The number stands in for `tmpl`; diagnostics refer to that token.
-  // (A copy, because the caller may overwrite `tmpl` with the result.)
-  tok->origin = copy_token(tmpl);
-  return tok;
+  return tokenize_at(buf, tmpl);
 }
 
 static Token *read_const_expr(Token **rest, Token *tok) {
@@ -560,7 +575,7 @@ static Token *stringize(Token *hash, Token *arg) {
 
   // We need to set some value to the new token's source location for
   // the error reporting functions, so we use the '#' token as a template.
-  return tokenize(new_file(hash->file->name, hash->file->file_no, buf));
+  return tokenize_at(buf, hash);
 }
 
 // Concatenate two tokens to create a new token.
@@ -570,7 +585,7 @@ static Token *paste(Token *lhs, Token *rhs) {
 
   // Tokenize the resulting string. Like a source file it ends with a
   // newline, which is where a line comment stops.
-  Token *tok = tokenize(new_file(lhs->file->name, lhs->file->file_no, format("%s\n", buf)));
+  Token *tok = tokenize_at(format("%s\n", buf), lhs);
   // '/' ## '/' starts a comment: the result is no token at all.
   if (tok->kind == TK_EOF || tok->next->kind != TK_EOF)
     error_tok(lhs, "pasting forms '%s', an invalid token", buf);
@@ -817,8 +832,11 @@ static bool expand_macro(Token **rest, Token *tok) {
   if (m->is_objlike) {
     Hideset *hs = hideset_union(tok->hideset, new_hideset(m->name));
     Token *body = add_hideset(paste_objlike(m->body), hs);
-    for (Token *t = body; t->kind != TK_EOF; t = t->next)
+    for (Token *t = body; t->kind != TK_EOF; t = t->next) {
       t->origin = tok;
+      if (!strcmp(t->file->name, "<built-in>"))
+        t->line_no = tok->line_no;
+    }
     *rest = append(body, tok->next);
     inherit_flags(*rest, tok->next, tok);
     return true;
@@ -844,8 +862,13 @@ static bool expand_macro(Token **rest, Token *tok) {
 
   Token *body = subst(m->body, args);
   body = add_hideset(body, hs);
-  for (Token *t = body; t->kind != TK_EOF; t = t->next)
+  for (Token *t = body; t->kind != TK_EOF; t = t->next) {
     t->origin = macro_token;
+    // Made-up tokens have no line of their own: they are on the line
+    // of the invocation, for debug information as for diagnostics.
+    if (!strcmp(t->file->name, "<built-in>"))
+      t->line_no = macro_token->line_no;
+  }
   *rest = append(body, tok->next);
   inherit_flags(*rest, tok->next, macro_token);
   return true;
